@@ -267,6 +267,22 @@ def CacheArg.rejected : CacheArg → Bool
   | .flag _ => false          -- `False is not False` is false; `True <= 0` is false
   | .limit c => decide (c ≤ 0)
 
+/-- the frame count a renderable is *constructed* with: `FrameCount.POSTPONED` defers the evaluation to
+    `_get_frame_count_()` (what it will return is `res`), done — once — by the `frame_count` property -/
+inductive Declared
+  | indefinite
+  | definite (n : Nat)
+  | postponed (res : Option Nat)
+  deriving DecidableEq, Repr
+
+/-- the `Renderable.frame_count` property: `if self._frame_count is POSTPONED: self._frame_count =
+    self._get_frame_count_()`; `none` = INDEFINITE.  This, never `_frame_count`, is what the iterator reads
+    (`_init`: `indefinite = renderable.frame_count is FrameCount.INDEFINITE`, `seek`, `_iterate`). -/
+def Declared.resolve : Declared → Option Nat
+  | .indefinite => none
+  | .definite n => some n
+  | .postponed res => res
+
 /-- `self._cached` as computed by `_init` -/
 def cachedDecision (count : Option Nat) (cache : CacheArg) : Bool :=
   match count with
@@ -315,6 +331,11 @@ def init {ρ O} (i : Init) (r0 : ρ) : Except Err (St ρ O) :=
         frameNo := 0,
         cache := if cached then List.replicate frameCount none else [],
         phase := .dummy, calls := [] }
+
+/-- construction over a renderable with a declared (possibly postponed) frame count: the count is
+    resolved by the property *before* `_init` decides `indefinite`, `loops` and `_cached` -/
+def initD {ρ O} (d : Declared) (i : Init) (r0 : ρ) : Except Err (St ρ O) :=
+  init { i with count := d.resolve } r0
 
 /-! ### `__next__` -/
 
